@@ -10,7 +10,6 @@
 
 using namespace prog;
 
-extern "C" struct alw_ctl alw __attribute__((weak));
 extern "C" void alw_reset(void) __attribute__((weak));
 extern "C" const char *alw_kind_name(int) __attribute__((weak));
 static bool have_fi() { return &alw != nullptr; }
@@ -23,12 +22,46 @@ static std::string tohex(const std::string &s) { std::string o; char b[4]; for (
 static std::string fromhex(const std::string &h) { std::string o; for (size_t i = 0; i + 1 < h.size(); i += 2) o += (char)strtol(h.substr(i, 2).c_str(), nullptr, 16); return o; }
 
 // ===================================================================== C19
-struct C19Case { std::string content; int combo = DEFAULT_COMBO; int mode = 0 /*0 plain 1 counting*/; int chunk = 16; int start = 0; int special = 0 /*0 regular file 1 nonexistent 2 directory 3 bin file at offsets*/; int fit = 0 /*chunk fitting set on both instances beforehand*/; int nbuf = 1 << 16; uint64_t pre = 0; };
-static std::string ser19(const C19Case &c) { return "C19|" + std::to_string(c.combo) + "|" + std::to_string(c.mode) + "|" + std::to_string(c.chunk) + "|" + std::to_string(c.start) + "|" + std::to_string(c.special) + ":" + std::to_string(c.fit) + ":" + std::to_string(c.nbuf) + ":" + std::to_string(c.pre) + "|" + tohex(c.content); }
-static bool parse19(const std::string &s, C19Case &c) { auto f = split(s, '|'); if (f.size() < 6 || f[0] != "C19") return false; c.combo = atoi(f[1].c_str()); c.mode = atoi(f[2].c_str()); c.chunk = atoi(f[3].c_str()); c.start = atoi(f[4].c_str()); { auto g = split(f[5], ':'); c.special = atoi(g[0].c_str()); c.fit = g.size() > 1 ? atoi(g[1].c_str()) : 0; c.nbuf = g.size() > 2 ? atoi(g[2].c_str()) : 1 << 16; c.pre = g.size() > 3 ? strtoull(g[3].c_str(), nullptr, 10) : 0; } c.content = f.size() > 6 ? fromhex(f[6]) : ""; return true; }
+struct C19Case { std::string content; int combo = DEFAULT_COMBO; int mode = 0 /*0 plain 1 counting*/; int chunk = 16; int start = 0; int special = 0 /*0 regular file 1 nonexistent 2 directory 3 bin file at offsets*/; int fit = 0 /*chunk fitting set on both instances beforehand*/; int nbuf = 1 << 16; uint64_t pre = 0; bool nulldest = false; /* counting calls with a NULL result pointer */ };
+static std::string ser19(const C19Case &c) { return "C19|" + std::to_string(c.combo) + "|" + std::to_string(c.mode) + "|" + std::to_string(c.chunk) + "|" + std::to_string(c.start) + "|" + std::to_string(c.special) + ":" + std::to_string(c.fit) + ":" + std::to_string(c.nbuf) + ":" + std::to_string(c.pre) + ":" + (c.nulldest ? "1" : "0") + "|" + tohex(c.content); }
+static bool parse19(const std::string &s, C19Case &c) { auto f = split(s, '|'); if (f.size() < 6 || f[0] != "C19") return false; c.combo = atoi(f[1].c_str()); c.mode = atoi(f[2].c_str()); c.chunk = atoi(f[3].c_str()); c.start = atoi(f[4].c_str()); { auto g = split(f[5], ':'); c.special = atoi(g[0].c_str()); c.fit = g.size() > 1 ? atoi(g[1].c_str()) : 0; c.nbuf = g.size() > 2 ? atoi(g[2].c_str()) : 1 << 16; c.pre = g.size() > 3 ? strtoull(g[3].c_str(), nullptr, 10) : 0; c.nulldest = g.size() > 4 && g[4] == "1"; } c.content = f.size() > 6 ? fromhex(f[6]) : ""; return true; }
 struct FV { bool ok = true; std::string symptom, detail; };
 
+#include <sys/resource.h>
+static const char *ODD[] = {"/sys/devices/system/cpu/online", "/proc/self/cmdline", "/dev/null", "/proc/self/status", "/sys/kernel/mm/transparent_hugepage/enabled", "/proc/self/maps"};
+// special 4: files whose size (fstat) and content (read) disagree, devices: the call comes back with EXIT_SUCCESS or EXIT_FAILURE.
+// special 5: many failing attempts (directory, missing file, odd files) in a process that can open only a few more files; a good file afterwards still
+//            assembles like its contents (a descriptor lost per failing attempt would make it fail)
+static FV check19_special(const C19Case &c) {
+  FV v; auto bad = [&](const std::string &s, const std::string &d) { v.ok = false; v.symptom = s; v.detail = d; return v; };
+  std::vector<uint8_t> b(4096, 0xcc);
+  if (c.special == 4) {
+    const char *path = ODD[c.start % 6]; if (access(path, R_OK) != 0) return v;
+    assemblyline_t a = asm_create_instance(b.data(), 4096); std::vector<char> p(path, path + strlen(path) + 1); int cnt = 0;
+    int rc = c.mode == 1 ? asm_assemble_file_counting_chunks(a, p.data(), c.chunk, &cnt) : (c.chunk & 1) ? assemble_file(a, p.data()) : asm_assemble_file(a, p.data());
+    bool usable = (asm_set_offset(a, 0), asm_assemble_str(a, "nop\n") == 0); asm_destroy_instance(a);
+    if (rc != 0 && rc != 1) return bad("return-value", std::string(path) + ": returned " + std::to_string(rc));
+    if (!usable) return bad("unusable", std::string("instance unusable after ") + path);
+    return v;
+  }
+  struct rlimit old; getrlimit(RLIMIT_NOFILE, &old); int top = open("/dev/null", O_RDONLY); if (top >= 0) close(top); struct rlimit lim = old; lim.rlim_cur = (rlim_t)(top + 24); if (lim.rlim_cur < old.rlim_cur) setrlimit(RLIMIT_NOFILE, &lim);
+  std::string dir = tmpdir(), missing = tmpdir() + "/does-not-exist.asm", good = tmpdir() + "/good.asm"; std::string prog = "mov rax, 0x1122334455667788\nadd rcx, 5\nret\n"; write_file(good, prog);
+  assemblyline_t a = asm_create_instance(b.data(), 4096); std::string why; int cnt = 0;
+  for (int i = 0; i < 120 && why.empty(); i++) {
+    const std::string &ps = i % 3 == 0 ? dir : i % 3 == 1 ? missing : std::string(ODD[i % 6]); std::vector<char> p(ps.begin(), ps.end()); p.push_back(0); asm_set_offset(a, 0);
+    int rc = (c.mode == 1 || (i & 8)) ? asm_assemble_file_counting_chunks(a, p.data(), 16, &cnt) : asm_assemble_file(a, p.data());
+    if (i % 3 != 2 && rc != EXIT_FAILURE) why = "attempt " + std::to_string(i) + " on " + ps + " returned " + std::to_string(rc);
+  }
+  if (why.empty()) { std::vector<char> p(good.begin(), good.end()); p.push_back(0); asm_set_offset(a, 0); int rc = asm_assemble_file(a, p.data()); int off = asm_get_offset(a);
+    std::vector<uint8_t> rb(4096, 0xcc); assemblyline_t r = asm_create_instance(rb.data(), 4096); int rr = asm_assemble_str(r, prog.c_str()); int ro = asm_get_offset(r); asm_destroy_instance(r);
+    if (rc != rr || off != ro || memcmp(b.data(), rb.data(), ro)) why = "after 120 failing attempts a readable file returned " + std::to_string(rc) + " (offset " + std::to_string(off) + "); its contents assemble with " + std::to_string(rr) + " (offset " + std::to_string(ro) + ")"; }
+  asm_destroy_instance(a); setrlimit(RLIMIT_NOFILE, &old);
+  if (!why.empty()) return bad("failing-attempts-exhaust", why);
+  return v;
+}
+
 static FV check19(const C19Case &c) {
+  if (c.special >= 4) return check19_special(c);
   FV v; auto bad = [&](const std::string &s, const std::string &d) { v.ok = false; v.symptom = s; v.detail = d; return v; };
   const int N = c.nbuf; std::vector<uint8_t> bs(N + 1, 0xcc), bf(N + 1, 0xcc);
   static const std::vector<std::string> PRE = {"mov rax, rbx", "add rcx, 5", "vpaddd ymm1, ymm2, ymm3"};
@@ -36,16 +69,16 @@ static FV check19(const C19Case &c) {
   std::string path = tmpdir() + "/in.asm";
   if (c.special == 1) path = tmpdir() + "/does-not-exist.asm"; else if (c.special == 2) path = tmpdir(); else if (!write_file(path, c.content)) return bad("harness", "cannot write " + path);
   if (have_fi()) alw.guard_files = 1;
-  assemblyline_t f = asm_create_instance(bf.data(), N); prepare(f);
+  al::heap_fill((unsigned)(c.content.size() + c.start)); assemblyline_t f = asm_create_instance(bf.data(), N); prepare(f);
   int cf = -7, rf;
   std::vector<char> pth(path.begin(), path.end()); pth.push_back(0);
-  if (c.mode == 1) rf = asm_assemble_file_counting_chunks(f, pth.data(), c.chunk, &cf); else rf = (c.content.size() & 1) ? assemble_file(f, pth.data()) : asm_assemble_file(f, pth.data());
+  if (c.mode == 1) rf = asm_assemble_file_counting_chunks(f, pth.data(), c.chunk, c.nulldest ? nullptr : &cf); else rf = (c.content.size() & 1) ? assemble_file(f, pth.data()) : asm_assemble_file(f, pth.data());
   int of = asm_get_offset(f);
   if (have_fi()) alw.guard_files = 0;
   if (c.special == 1 || c.special == 2) { asm_destroy_instance(f); if (rf != EXIT_FAILURE) return bad("missing-file-accepted", std::string(c.special == 1 ? "nonexistent path" : "directory") + " returned " + std::to_string(rf)); return v; }
-  assemblyline_t s = asm_create_instance(bs.data(), N); prepare(s);
+  al::heap_fill((unsigned)(c.content.size() + c.start + 3)); assemblyline_t s = asm_create_instance(bs.data(), N); prepare(s);
   int cs = -7, rs; std::vector<char> w(c.content.begin(), c.content.end()); w.push_back(0);
-  if (c.mode == 1) rs = asm_assemble_string_counting_chunks(s, w.data(), c.chunk, &cs); else rs = asm_assemble_str(s, w.data());
+  if (c.mode == 1) rs = asm_assemble_string_counting_chunks(s, w.data(), c.chunk, c.nulldest ? nullptr : &cs); else rs = asm_assemble_str(s, w.data());
   int os_ = asm_get_offset(s);
   FV res;
   if (rf != rs) res = bad("return-code", "file call returned " + std::to_string(rf) + ", string call on the same " + std::to_string(c.content.size()) + " bytes " + std::to_string(rs));
@@ -109,19 +142,23 @@ void prop_c19(hz::Ctx &ctx) {
   for (size_t size : sizes) for (int rep = 0; rep < reps; rep++) for (int mode = 0; mode < 2; mode++) {
     bool failing = rep % 3 == 2, final_nl = rep & 1, crlf = (rep >> 1) & 1;
     C19Case c; c.content = sized_content(P, r, size, failing, final_nl, crlf); c.combo = (int)r.below(12); c.mode = mode; static const int CH[] = {0, 1, 2, 5, 16, 17, 64}; c.chunk = CH[r.below(7)]; c.start = r.below(3) == 0 ? (int)r.below(200) : 0; c.special = rep % 2 == 0 && mode == 0 ? 3 : 0;
+    c.nulldest = mode == 1 && r.below(3) == 0;
     { static const int FIT[] = {0, 0, 0, 8, 16, 17}; c.fit = FIT[r.below(6)]; if (r.below(4) == 0) c.pre = r.next() | 1; if (r.below(5) == 0) { c.nbuf = (int)r.below(80); c.start = c.start % (c.nbuf + 1); c.pre = 0; } }
     if (!ctx.take()) continue;
     std::string id = ser19(c); if (!ctx.begin(id, "file of " + std::to_string(size) + " bytes")) continue;
     if (c.fit) ctx.cls("instance:chunk-fitting"); if (c.nbuf < 100) ctx.cls("buffer:small"); if (c.pre) ctx.cls("instance:previous-life");
-    ctx.cls("part:sizes"); if (size == 0) ctx.cls("size:empty"); if (size && size % 4096 == 0) ctx.cls("size:page-multiple"); if (!final_nl) ctx.cls("no-final-newline"); if (crlf) ctx.cls("crlf"); if (c.special == 3) ctx.cls("bin-file"); if (mode) ctx.cls("counting");
+    ctx.cls("part:sizes"); if (size == 0) ctx.cls("size:empty"); if (size && size % 4096 == 0) ctx.cls("size:page-multiple"); if (!final_nl) ctx.cls("no-final-newline"); if (crlf) ctx.cls("crlf"); if (c.special == 3) ctx.cls("bin-file"); if (mode) ctx.cls("counting"); if (c.nulldest) ctx.cls("counting:null-result-pointer");
     if (size == 0 || size % 4096 == 0 || !final_nl) ctx.nontrivial(id);
     FV v = check19(c);
     if (ctx.want_sample()) ctx.put_sample("file of " + std::to_string(size) + " bytes" + (final_nl ? "" : " without final newline") + (crlf ? " (CRLF)" : "") + (failing ? " possibly with a bad line" : "") + (mode ? ", counting" : "") + " -> " + (v.ok ? "same as the string call" : v.detail));
     if (!v.ok) ctx.fail(fail19(c, v));
   }
   for (int sp = 1; sp <= 2; sp++) for (int mode = 0; mode < 2; mode++) { C19Case c; c.special = sp; c.mode = mode; if (!ctx.take()) continue; std::string id = ser19(c); if (!ctx.begin(id, sp == 1 ? "nonexistent path" : "directory")) continue; ctx.cls("part:missing"); ctx.nontrivial(id); FV v = check19(c); if (!v.ok) ctx.fail(fail19(c, v)); }
+  for (int k = 0; k < 6; k++) for (int mode = 0; mode < 2; mode++) for (int ch : {0, 16, 17}) { C19Case c; c.special = 4; c.start = k; c.mode = mode; c.chunk = ch; if (!ctx.take()) continue; std::string id = ser19(c); if (!ctx.begin(id, ODD[k])) continue; ctx.cls("part:odd-files"); ctx.nontrivial(id); FV v = check19(c); if (ctx.want_sample()) ctx.put_sample(std::string(ODD[k]) + " -> " + (v.ok ? "returned" : v.detail)); if (!v.ok) ctx.fail(fail19(c, v)); }
+  for (int mode = 0; mode < 2; mode++) { C19Case c; c.special = 5; c.mode = mode; if (!ctx.take()) continue; std::string id = ser19(c); if (!ctx.begin(id, "120 failing attempts, then a readable file")) continue; ctx.cls("part:many-failing-attempts"); ctx.nontrivial(id); FV v = check19(c); if (ctx.want_sample()) ctx.put_sample(std::string("120 failing file attempts with few descriptors left, then a readable file -> ") + (v.ok ? "assembles like its contents" : v.detail)); if (!v.ok) ctx.fail(fail19(c, v)); }
   // rapidcheck: arbitrary sizes up to several pages
   auto gen_case = rc::gen::apply([&](int size, int seed, int combo, int mode, int chunk, bool nl, bool crlf, bool failing, int start) { hz::Rng rr((uint64_t)seed); C19Case c; c.content = sized_content(P, rr, (size_t)size, failing, nl, crlf); c.combo = combo; c.mode = mode; c.chunk = chunk - 3; c.start = start; c.special = (seed & 3) == 0 ? 3 : 0;
+      c.nulldest = mode == 1 && ((seed >> 17) & 3) == 0;
       static const int FIT[] = {0, 0, 0, 8, 16, 17}; c.fit = FIT[(seed >> 4) % 6]; if (((seed >> 8) & 3) == 0) c.pre = (uint64_t)seed | 1; if (((seed >> 10) & 7) == 0) { c.nbuf = (seed >> 13) % 80; c.start %= (c.nbuf + 1); c.pre = 0; if (size > 200) c.content = sized_content(P, rr, (size_t)size % 60, failing, nl, crlf); } return c; },
     range(0, 17000), range(0, 1 << 30), range(0, 12), range(0, 2), range(0, 40), rc::gen::arbitrary<bool>(), rc::gen::arbitrary<bool>(), rc::gen::arbitrary<bool>(), range(0, 300));
   rc_rounds(ctx, "C19-files", ctx.thorough() ? 100000 : 12000, 100, [&]() {
@@ -161,6 +198,7 @@ static FI run17(const Pool &P, const C17Case &c) {
   assemblyline_t a = nullptr; int rc = 0; bool hit;
   // ---- create
   bool internal = c.scenario != 1;
+  al::heap_fill((unsigned)(c.seed + c.scenario));
   { alw.armed = 1; long before = alw.counter; a = asm_create_instance(internal ? nullptr : ext.data(), 4096); alw.armed = 0; hit = alw.failed_index > before; v.trace += std::string("create=") + (a ? "ok" : "NULL") + (hit ? "[fault] " : " ");
     if (hit) { v.faulted = std::string("asm_create_instance (") + alw_kind_name(alw.failed_kind) + ")"; if (a != nullptr) { asm_destroy_instance(a); return bad("fault-ignored", "asm_create_instance returned an instance although its " + std::string(alw_kind_name(alw.failed_kind)) + " failed"); } v.calls = alw.counter; return v; }
     if (!a) return bad("create", "asm_create_instance returned NULL without any injected fault"); }
